@@ -1,0 +1,11 @@
+//go:build verif
+
+package exptypes
+
+import (
+	"github.com/cedar-policy/cedar-go/types"
+	"github.com/cedar-policy/cedar-go/x/exp/schema/resolved"
+)
+
+// VerifCoerceValue exposes the schema-guided coercion of one value (verification hook; build tag verif).
+func VerifCoerceValue(v types.Value, t resolved.IsType) types.Value { return coerceValue(v, t) }
